@@ -85,61 +85,191 @@ func c06R3(c *Ctx, p *Prog) {
 		c.Anchor(rule, "search.(*Search).iterativeDeepen")
 		return
 	}
-	mv := namedResult(fn, 1)
-	if mv == nil {
-		c.Undec(rule, "iterativeDeepen#result", fn.Pos(), "named result `move` not found")
+	asgs := resultAssignments(fn, 1)
+	if len(asgs) == 0 {
+		c.Undec(rule, "iterativeDeepen#result", fn.Pos(), "cannot enumerate the values assigned to the returned move")
 		return
 	}
+	mv := namedResult(fn, 1)
 	nFallback := 0
-	for _, r := range *mv.Referrers() {
-		st, ok := r.(*ssa.Store)
-		if !ok || st.Addr != ssa.Value(mv) {
+	for _, as := range asgs {
+		if k, isc := constOf(as.Val); isc && k == 0 {
 			continue
 		}
-		if k, isc := constOf(st.Val); isc && k == 0 {
+		if moveOrigin(as.Val, []string{"search.(*pv).active"}, map[ssa.Value]bool{}, 0) == nil {
+			c.Ok(rule, "iterativeDeepen#result-from-pv", as.Pos, "result move taken from the principal variation")
 			continue
 		}
-		if moveOrigin(st.Val, []string{"search.(*pv).active"}, map[ssa.Value]bool{}, 0) == nil {
-			c.Ok(rule, "iterativeDeepen#result-from-pv", st.Pos(), "result move taken from the principal variation")
-			continue
+		// the fallback: inline, or a helper of package search returning the move
+		fbFn, fbVals, fbPos := fn, []ssa.Value{as.Val}, []token.Pos{as.Pos}
+		fbBlocks := []*ssa.BasicBlock{as.Block}
+		if call, ok := stripConv(as.Val).(*ssa.Call); ok {
+			if h := call.Call.StaticCallee(); h != nil && isOwn(h) && h.Blocks != nil && relPkg(fnPkgPath(h)) == "search" {
+				fbFn, fbVals, fbPos, fbBlocks = h, nil, nil, nil
+				for _, ha := range resultAssignments(h, 0) {
+					if k, isc := constOf(ha.Val); isc && k == 0 {
+						continue
+					}
+					fbVals = append(fbVals, ha.Val)
+					fbPos = append(fbPos, ha.Pos)
+					fbBlocks = append(fbBlocks, ha.Block)
+				}
+			}
 		}
-		if bad := moveOrigin(st.Val, []string{"move.(*Store).Frame"}, map[ssa.Value]bool{}, 0); bad != nil {
-			c.Fail(rule, "iterativeDeepen#result-origin", st.Pos(), "the returned move can come from %s, which is neither the PV nor a generated move", bad.Name())
+		okAll := len(fbVals) > 0
+		for i, v := range fbVals {
+			if bad := moveOrigin(v, []string{"move.(*Store).Frame"}, map[ssa.Value]bool{}, 0); bad != nil {
+				c.Fail(rule, "iterativeDeepen#result-origin", fbPos[i], "the returned move can come from %s, which is neither the PV nor a generated move", bad.Name())
+				okAll = false
+				continue
+			}
+			// adopted only on the not-in-check edge of a legality branch of a make of the same move
+			okLegal := false
+			for _, mk := range callsIn(fbFn, "board.(*Board).MakeMove") {
+				if !sameValue(mk.Common().Args[1], v, 0) {
+					continue
+				}
+				lb, _ := findLegalityBranch(fbFn, mk)
+				if lb != nil && len(lb.LegalTo.Preds) == 1 && (lb.LegalTo == fbBlocks[i] || lb.LegalTo.Dominates(fbBlocks[i])) {
+					okLegal = true
+				}
+			}
+			c.Check(okLegal, rule, "iterativeDeepen#fallback-legal", fbPos[i], "on abort without a completed iteration the adopted move was made and found not to leave the mover in check")
+		}
+		if !okAll {
 			continue
 		}
 		nFallback++
-		// the fallback adoption lies on the not-in-check edge of a legality branch of a make of the same move
-		okLegal := false
-		for _, mk := range callsIn(fn, "board.(*Board).MakeMove") {
-			if !sameValue(mk.Common().Args[1], st.Val, 0) {
-				continue
-			}
-			lb, _ := findLegalityBranch(fn, mk)
-			if lb != nil && len(lb.LegalTo.Preds) == 1 && (lb.LegalTo == st.Block() || lb.LegalTo.Dominates(st.Block())) {
-				okLegal = true
-			}
-		}
-		c.Check(okLegal, rule, "iterativeDeepen#fallback-legal", st.Pos(), "on abort without a completed iteration the adopted move was made and found not to leave the mover in check")
 		// reached only under abort && move == 0
-		facts := controllingConds(st.Block())
 		var underAbort, underNoMove bool
-		for _, ce := range facts {
+		for _, ce := range controllingConds(as.Block) {
 			if call, ok := ce.Cond.(*ssa.Call); ok && ce.True && objName(calleeObj(call)) == "search.(*Search).abort" {
 				underAbort = true
 			}
 			if bo, ok := ce.Cond.(*ssa.BinOp); ok {
-				if l, ok := stripConv(bo.X).(*ssa.UnOp); ok && l.Op == token.MUL && l.X == ssa.Value(mv) {
-					if k, isc := constOf(bo.Y); isc && k == 0 && ((bo.Op == token.EQL && ce.True) || (bo.Op == token.NEQ && !ce.True)) {
+				if k, isc := constOf(bo.Y); isc && k == 0 && ((bo.Op == token.EQL && ce.True) || (bo.Op == token.NEQ && !ce.True)) {
+					x := stripConv(bo.X)
+					if l, ok := x.(*ssa.UnOp); ok && l.Op == token.MUL && mv != nil && l.X == ssa.Value(mv) {
+						underNoMove = true
+					} else if isResultWeb(x, asgs) {
 						underNoMove = true
 					}
 				}
 			}
 		}
-		c.Check(underAbort && underNoMove, rule, "iterativeDeepen#fallback-only-without-result", st.Pos(), "the fallback replaces the result only after an abort and only while no iteration has produced a move")
+		c.Check(underAbort && underNoMove, rule, "iterativeDeepen#fallback-only-without-result", as.Pos, "the fallback replaces the result only after an abort and only while no iteration has produced a move")
+		c.Check(bothHalvesTogether(fbFn), rule, "iterativeDeepen#fallback-generates-all", as.Pos, "the fallback generates both the noisy and the quiet half (a position whose only legal moves are quiet still gets a move)")
 	}
 	c.Floor(rule, nFallback, 1, "fallback adoptions")
-	// the fallback exists on the abort path: a return reachable from abort()==true must be preceded by the fallback when move == 0
-	c.Check(bothHalvesTogether(fn), rule, "iterativeDeepen#fallback-generates-all", fn.Pos(), "the fallback generates both the noisy and the quiet half (a position whose only legal moves are quiet still gets a move)")
+}
+
+// resultAssign is one value that can become the i-th result of a function, with the block it is chosen in.
+type resultAssign struct {
+	Val   ssa.Value
+	Block *ssa.BasicBlock
+	Pos   token.Pos
+}
+
+// resultAssignments enumerates what can be returned as result i: the stores to the
+// named-result local (functions with defers) or the leaves of the phi web feeding the returns.
+func resultAssignments(fn *ssa.Function, i int) []resultAssign {
+	out, _, _ := resultWeb(fn, i)
+	return out
+}
+
+// resultWeb: the assignments, the phis merging them, and the local holding the result (when there is one).
+func resultWeb(fn *ssa.Function, i int) ([]resultAssign, map[*ssa.Phi]bool, *ssa.Alloc) {
+	var out []resultAssign
+	phis := map[*ssa.Phi]bool{}
+	var alloc *ssa.Alloc
+	seen := map[ssa.Value]bool{}
+	var walk func(v ssa.Value, blk *ssa.BasicBlock, pos token.Pos)
+	walk = func(v ssa.Value, blk *ssa.BasicBlock, pos token.Pos) {
+		if ph, ok := v.(*ssa.Phi); ok {
+			if seen[ph] {
+				return
+			}
+			seen[ph] = true
+			phis[ph] = true
+			for k, e := range ph.Edges {
+				pred := ph.Block().Preds[k]
+				pp := pos
+				if len(pred.Instrs) > 0 {
+					pp = pred.Instrs[len(pred.Instrs)-1].Pos()
+					if !pp.IsValid() {
+						pp = ph.Pos()
+					}
+				}
+				walk(e, pred, pp)
+			}
+			return
+		}
+		// result kept in a local (named results, or any result of a function with defers)
+		if ld, ok := v.(*ssa.UnOp); ok && ld.Op == token.MUL {
+			if al, ok := ld.X.(*ssa.Alloc); ok && !al.Heap {
+				if seen[al] {
+					return
+				}
+				seen[al] = true
+				onlyStores := true
+				for _, r := range *al.Referrers() {
+					switch x := r.(type) {
+					case *ssa.Store:
+						if x.Addr != ssa.Value(al) {
+							onlyStores = false
+						}
+					case *ssa.UnOp, *ssa.DebugRef:
+					default:
+						onlyStores = false
+					}
+				}
+				if onlyStores {
+					alloc = al
+					for _, r := range *al.Referrers() {
+						if st, ok := r.(*ssa.Store); ok {
+							walk(st.Val, st.Block(), st.Pos())
+						}
+					}
+					return
+				}
+			}
+		}
+		out = append(out, resultAssign{v, blk, pos})
+	}
+	allInstrs(fn, func(in ssa.Instruction) {
+		if ret, ok := in.(*ssa.Return); ok && i < len(ret.Results) && ret.Block() != fn.Recover {
+			walk(returnedValue(ret, i), ret.Block(), ret.Pos())
+		}
+	})
+	return out, phis, alloc
+}
+
+// isResultWeb: x is (a phi over) values that are themselves result assignments — "the move so far".
+func isResultWeb(x ssa.Value, asgs []resultAssign) bool {
+	leaves := map[ssa.Value]bool{}
+	for _, a := range asgs {
+		leaves[a.Val] = true
+	}
+	seen := map[ssa.Value]bool{}
+	ok := true
+	var walk func(v ssa.Value)
+	walk = func(v ssa.Value) {
+		if seen[v] {
+			return
+		}
+		seen[v] = true
+		if ph, isPhi := v.(*ssa.Phi); isPhi {
+			for _, e := range ph.Edges {
+				walk(e)
+			}
+			return
+		}
+		if !leaves[v] {
+			ok = false
+		}
+	}
+	walk(x)
+	return ok && len(seen) > 0
 }
 
 // C06.R4: integers parsed from external text are range-checked before a narrowing conversion.
@@ -635,7 +765,7 @@ func c06R6(c *Ctx, p *Prog) {
 		}
 		c.Check(guarded, rule, fmt.Sprintf("alphaBeta#tt-cutoff@%d", n), ret.Pos(), "a transposition-table value is returned only in non-PV nodes (the root always searches its moves)")
 	})
-	c.Floor(rule, n, 3, "transposition-table cutoffs in alphaBeta")
+	c.Floor(rule, n, 1, "transposition-table cutoffs in alphaBeta")
 }
 
 func init() {
